@@ -68,7 +68,7 @@ func (x *Exec) chanStateMap(st *State, fn string, ch Term) (string, string, bool
 		}
 		name, _, tr := x.chTrace(st, fn, ch)
 		return name, tr, true
-	case "closed", "own", "drained":
+	case "closed", "own", "drained", "mayclose":
 		x.heapMap(st, "C_"+fn, "Bool")
 		return "C_" + fn, "Bool", true
 	case "slots", "cap", "shares", "myshare":
@@ -183,7 +183,7 @@ func (x *Exec) chanRecv(st *State, fr *Frame, ch Term, n ast.Node, k func(*State
 func (x *Exec) chanSend(st *State, fr *Frame, ch Term, v Term, n ast.Node, guarded bool) {
 	x.oblige(st, "chan", "send-perm", tOr(x.chFlag(st, "own", ch), tApp("Bool", ">", x.chInt(st, "myshare", ch), tInt(0))), n, "send needs the send permission of the channel")
 	x.oblige(st, "chan", "send-open", tNot(x.chFlag(st, "closed", ch)), n, "no send after this goroutine closed the channel")
-	if !guarded {
+	if !guarded && x.opts["baresend"] != "delivery" {
 		// a bare send may block forever unless a free buffer slot is guaranteed
 		x.oblige(st, "progress", "bare-send", tApp("Bool", ">", x.chInt(st, "slots", ch), tInt(0)), n, "a send outside select needs a guaranteed free slot")
 		x.chSetInt(st, "slots", ch, tApp("Int", "-", x.chInt(st, "slots", ch), tInt(1)))
@@ -199,10 +199,11 @@ func (x *Exec) chanSend(st *State, fr *Frame, ch Term, v Term, n ast.Node, guard
 }
 
 func (x *Exec) chanClose(st *State, fr *Frame, ch Term, n ast.Node) {
-	x.oblige(st, "chan", "close-perm", x.chFlag(st, "own", ch), n, "close needs the close permission of the channel")
+	x.oblige(st, "chan", "close-perm", tOr(x.chFlag(st, "own", ch), x.chFlag(st, "mayclose", ch)), n, "close needs the close permission of the channel")
 	x.oblige(st, "chan", "close-once", tNot(x.chFlag(st, "closed", ch)), n, "channel is closed at most once")
 	x.oblige(st, "chan", "close-after-workers", tOr(tEq(x.chInt(st, "shares", ch), tInt(0)), x.ghostBool(st, "waited")), n, "close only after every worker holding a send share has finished (WaitGroup.Wait)")
 	x.oblige(st, "safety", "close-nil", tNot(tEq(ch, nullRef)), n, "close of nil channel")
+	x.oblige(st, "chan", "close-not-already-closed", tOr(x.chFlag(st, "own", ch), tNot(x.chFlag(st, "drained", ch))), n, "the channel has not been observed closed by someone else (close of a closed channel panics)")
 	x.chSetFlag(st, "closed", ch, tTrue)
 }
 
